@@ -187,14 +187,20 @@ def random_syntenies(rng, leaves, nfam, ordered=True, consistent_p=0.8, min_len=
     return syn
 
 
-def common_supersequence(rng, syn):
-    """A random linear extension of the leaf orders (None if cyclic)."""
+def common_supersequence(rng, syn, extra_p=0.4):
+    """A random linear extension of the leaf orders (None if cyclic).  With probability ``extra_p`` one or two
+    families that no leaf carries are inserted at random positions: a prescribed root order only has to be a common
+    supersequence of the leaves, and families lost everywhere change which runs merge / fall into a free end run."""
     from rv.refmodel.label import linear_extensions
 
     ext = linear_extensions([tuple(s) for s in syn.values()])
     if not ext:
         return None
-    return list(rng.choice(ext))
+    ro = list(rng.choice(ext))
+    if rng.random() < extra_p:
+        for k in range(rng.choice((1, 1, 2))):
+            ro.insert(rng.randint(0, len(ro)), f"x{k}")
+    return ro
 
 
 def shared_family_syntenies(leaves):
